@@ -838,6 +838,24 @@ def run(ck: Check):
     scs += directed_scenarios(100000)
     for i in range(n):
         scs.append(gen_scenario(rng, i))
+    # a leader change while a Fetch is in flight: the consumer fetches the same offset from the new leader as well
+    # (in-flight requests are tracked per node); the old leader's reply brings records, the new leader's later reply
+    # an error (OFFSET_OUT_OF_RANGE after an unclean election, or a retriable code)
+    rng_dup = random.Random(ck.seed * 7121 + 304)
+    for i in range(ck.n(36, 300)):
+        k = rng_dup.randrange(2, 9)
+        faults = {str(o): {"kind": "delay", "delay": rng_dup.choice([0.3, 0.5])} for o in range(k, k + rng_dup.choice([1, 2, 3]))}
+        for o in range(k + 3, k + 3 + rng_dup.choice([2, 4, 6])):
+            faults[str(o)] = {"kind": "error", "code": rng_dup.choice([1, 1, 1, 6, 3]), "delay": rng_dup.choice([0.6, 0.9])}
+        sc = gen_scenario(rng_dup, 710000 + i, brokers=2, metadata_max_age_ms=100, latency=[0.001, 0.004],
+                          fetch_max_wait_ms=50)
+        sc["faults"] = faults
+        sc["migrations"] = [{"at": rng_dup.choice([0.02, 0.05, 0.1, 0.2, 0.3, 0.45]), "partition": q, "to": 1 - q % 2}
+                            for q in range(sc["partitions"])]
+        sc["leaderless"] = []
+        sc["log_start_moves"] = []
+        sc["family"] = "duplicate-fetch-after-leader-change"
+        scs.append(sc)
     # the same kind of scenarios against older broker releases (Fetch v2..v11, ListOffsets v0..v5, Metadata v1..v8):
     # read_committed needs Fetch >= 4, i.e. a release with transactions
     from simkit import profiles
